@@ -77,6 +77,8 @@ pub fn trace(args: &[String]) {
              if (0xfe00..0xfea0).contains(&a) { memory_write_byte(p, a, v); emit(&mut out, &mut core, "oamw", (a - 0xfe00) as u64, v as u64, None); }
              else if a >= 0x8000 && a < 0xff00 || a >= 0xff80 { memory_write_byte(p, a, v); emit(&mut out, &mut core, "edit", a as u64, v as u64, None); }
              else { count -= 1; } },
+      4 => { // switch the ROM bank: pages 0x40-0x7F now show other bytes ("through the normal memory map at the time")
+             let v = rng.below(4) as u8; memory_write_byte(p, 0x2000, v); emit(&mut out, &mut core, "edit", 0x2000, v as u64, None); },
       3 => { let i = rng.below(160); let v = rng.byte(); memory_write_byte(p, 0xfe00 + i as u16, v);
              emit(&mut out, &mut core, "oamw", i, v as u64, None); },
       _ => { let b = 4 * match rng.below(6) { 0 => 1, 1 => 1 + rng.below(4) as usize, 2 => 1 + rng.below(40) as usize,
